@@ -48,6 +48,61 @@ type mapEntry struct {
 type Map struct {
 	keyT, valT types.Type
 	entries    []*mapEntry
+	cidx       map[any]*mapEntry // entries with concrete keys, by canonical key
+	sym        []*mapEntry       // entries with symbolic keys
+}
+
+// reindex rebuilds the key indexes from entries.
+func (m *Map) reindex() {
+	m.cidx, m.sym = nil, nil
+	for _, e := range m.entries {
+		if ck, ok := concreteKey(e.k); ok {
+			if m.cidx == nil {
+				m.cidx = map[any]*mapEntry{}
+			}
+			m.cidx[ck] = e
+		} else {
+			m.sym = append(m.sym, e)
+		}
+	}
+}
+
+// concreteKey returns a canonical Go value for a fully concrete map key.
+func concreteKey(k Value) (any, bool) {
+	switch k := k.(type) {
+	case *Term:
+		if k.IsConst() {
+			return constKey{k.W, k.C}, true
+		}
+		return nil, false
+	case string:
+		return k, true
+	case *Value:
+		return k, true
+	case float64:
+		return k, true
+	case array:
+		var sb strings.Builder
+		for _, e := range k {
+			c, ok := concreteKey(e)
+			if !ok {
+				return nil, false
+			}
+			fmt.Fprintf(&sb, "%#v|", c)
+		}
+		return "arr:" + sb.String(), true
+	case structure:
+		var sb strings.Builder
+		for _, e := range k {
+			c, ok := concreteKey(e)
+			if !ok {
+				return nil, false
+			}
+			fmt.Fprintf(&sb, "%#v|", c)
+		}
+		return "st:" + sb.String(), true
+	}
+	return nil, false
 }
 
 type Chan struct {
@@ -351,7 +406,14 @@ func (ex *Exec) mapFind(m *Map, k Value) *mapEntry {
 	if m == nil {
 		return nil
 	}
-	for _, e := range m.entries {
+	scan := m.entries
+	if ck, ok := concreteKey(k); ok {
+		if e := m.cidx[ck]; e != nil {
+			return e
+		}
+		scan = m.sym // a concrete key can only equal a symbolic-key entry now
+	}
+	for _, e := range scan {
 		eq := ex.eqVal(e.k, k)
 		if eq.IsTrue() {
 			return e
@@ -374,7 +436,16 @@ func (ex *Exec) mapInsert(m *Map, k, v Value) {
 		e.v = v
 		return
 	}
-	m.entries = append(m.entries, &mapEntry{k: copyVal(k), v: v})
+	e := &mapEntry{k: copyVal(k), v: v}
+	m.entries = append(m.entries, e)
+	if ck, ok := concreteKey(k); ok {
+		if m.cidx == nil {
+			m.cidx = map[any]*mapEntry{}
+		}
+		m.cidx[ck] = e
+	} else {
+		m.sym = append(m.sym, e)
+	}
 }
 
 func (ex *Exec) mapDelete(m *Map, k Value) {
@@ -388,7 +459,17 @@ func (ex *Exec) mapDelete(m *Map, k Value) {
 	for i, x := range m.entries {
 		if x == e {
 			m.entries = append(m.entries[:i:i], m.entries[i+1:]...)
-			return
+			break
+		}
+	}
+	if ck, ok := concreteKey(e.k); ok {
+		delete(m.cidx, ck)
+	} else {
+		for i, x := range m.sym {
+			if x == e {
+				m.sym = append(m.sym[:i:i], m.sym[i+1:]...)
+				break
+			}
 		}
 	}
 }
